@@ -1407,13 +1407,18 @@ def id_packing(prog, rep):
         out = []
         for c, rel, val in conds:
             t = truth_of(rel, val)
-            if t is None or c[0] != "bin" or c[1] not in ("Ne", "Eq") or cint(c[3]) != 0:
+            if t is None or c[0] != "bin" or c[1] not in ("Ne", "Eq") or cint(c[3]) not in (0, 1):
                 continue
             try:
                 bv = be.eval(c[2], {"leaf": leaf_d}, dir_)
             except Unsupported:
                 continue
             nonzero = t if c[1] == "Ne" else not t
+            if cint(c[3]) == 1:
+                # `x == 1` is `x != 0` exactly when x has at most bit 0
+                if not all(b == 0 for b in bv[1:]):
+                    continue
+                nonzero = not nonzero
             # only ids below 2^30 are described (and bit 31 is refused by the encoder)
             bv = [0 if b in (("s", "id", 30), ("s", "id", 31)) else b for b in bv]
             out.append((bv, nonzero))
